@@ -39,7 +39,7 @@ type tcase struct {
 	Sp   int
 	Amt  int // index in tAmounts
 	Unit int
-	Org  int // -1 = no origin
+	Org  int  // -1 = no origin
 	Kw   bool // origin written TIMESTAMP '...'
 	Tz   bool // column is TIMESTAMP WITH TIME ZONE (what Arc's parquet files give) instead of TIMESTAMP
 }
@@ -120,10 +120,10 @@ func newTimeGrid(quick bool) *timeGrid {
 	}
 	if !quick {
 		bounds = append(bounds,
-			us(2000, 1, 3, 0, 0, 0),    // DuckDB's default time_bucket origin
-			us(1969, 12, 29, 0, 0, 0),  // a pre-epoch Monday
-			us(1900, 1, 1, 0, 0, 0),    // far past
-			us(2030, 1, 1, 0, 0, 0),    // the future origin itself
+			us(2000, 1, 3, 0, 0, 0),     // DuckDB's default time_bucket origin
+			us(1969, 12, 29, 0, 0, 0),   // a pre-epoch Monday
+			us(1900, 1, 1, 0, 0, 0),     // far past
+			us(2030, 1, 1, 0, 0, 0),     // the future origin itself
 			us(2024, 2, 29, 23, 59, 59), // leap day
 		)
 	}
@@ -389,7 +389,7 @@ func (g *timeGrid) classify() {
 		o := g.out[k.c]
 		g.viol = append(g.viol, violation{Sig: s,
 			Desc: fmt.Sprintf("%s on time='%s': DuckDB gives %s, Arc's rewrite gives %s", k.c.expr(), g.rows[k.r].Text, usText(o.Orig[k.r]), usText(o.Rew[k.r])),
-			Replay: map[string]any{"original_sql": k.c.sql(), "rewritten_sql": o.Rewrite, "row_time_utc": g.rows[k.r].Text, "row_epoch_us": g.rows[k.r].Us,
+			Replay: map[string]any{"standalone_original_sql": g.standalone(k.c, k.r), "original_sql": k.c.sql(), "rewritten_sql": o.Rewrite, "row_time_utc": g.rows[k.r].Text, "row_epoch_us": g.rows[k.r].Us,
 				"duckdb_original": usText(o.Orig[k.r]), "arc_rewritten": usText(o.Rew[k.r]), "column_type": map[bool]string{false: "TIMESTAMP", true: "TIMESTAMP WITH TIME ZONE"}[k.c.Tz]},
 			Instances: k.n})
 	}
@@ -418,6 +418,15 @@ func (g *timeGrid) signature(c tcase, r int) string {
 	}
 	fmt.Fprintf(&b, "|t=%s|arc-duckdb=%s", g.rows[r].Text, fmtDelta(o.Orig[r], o.Rew[r]))
 	return b.String()
+}
+
+// standalone renders the case over a one-row inline table (for --replay: no grid tables needed)
+func (g *timeGrid) standalone(c tcase, r int) string {
+	mk := "make_timestamp"
+	if c.Tz {
+		mk = "make_timestamptz"
+	}
+	return fmt.Sprintf("SELECT i, epoch_us(%s) FROM (SELECT 0 AS i, %s(%d::BIGINT) AS time) g", c.expr(), mk, g.rows[r].Us)
 }
 
 func (g *timeGrid) classes() []violation { return g.viol }
